@@ -1993,3 +1993,122 @@ def _enclosing_tests(n):
         if isinstance(p, (ast.If, ast.IfExp, ast.While)):
             yield p.test
         p = getattr(p, "_parent", None)
+
+
+# ---- questions about OWN properties are answered from the receiver's own tables --------------------------------
+
+
+_OWN_NATIVES = ("hasOwnProperty", "getOwnPropertyDescriptor", "getOwnPropertyNames", "keys", "values", "entries")
+
+
+def chain_walkers(ctx) -> Dict[str, str]:
+    """method name -> why, for the methods of the object-model classes (values module) that follow the prototype link,
+    themselves or through another method of the object they call on self."""
+    got = ctx.__dict__.get("_chain_walkers")
+    if got is not None:
+        return got
+    vals = ctx.tree.mod("values")
+    out: Dict[str, str] = {}
+    methods = [m for ci in vals.classes.values() for m in ci.methods.values() if not isinstance(m.node, ast.Lambda)]
+    for m in methods:
+        if m.name in ("__init__",) or any(isinstance(d, ast.Attribute) and d.attr == "setter" for d in getattr(m.node, "decorator_list", [])):
+            continue
+        if any(isinstance(a, ast.Attribute) and a.attr in ("_prototype", "_proto") and isinstance(a.ctx, ast.Load) for a in m.own_nodes()):
+            out.setdefault(m.name, f"{m.qual} reads the prototype link")
+    changed = True
+    while changed:
+        changed = False
+        for m in methods:
+            if m.name in out:
+                continue
+            for c in m.own_nodes():
+                if isinstance(c, ast.Call) and isinstance(c.func, ast.Attribute) and norm(c.func.value) == "self" and c.func.attr in out:
+                    out[m.name] = f"{m.qual} calls self.{c.func.attr}(), and {out[c.func.attr]}"
+                    changed = True
+                    break
+    ctx.__dict__["_chain_walkers"] = out
+    return out
+
+
+def rule_own_questions_stay_on_the_receiver(ctx, rep, rid: str) -> None:
+    """hasOwnProperty, Object.getOwnPropertyDescriptor/Names and Object.keys/values/entries speak about the receiver
+    alone.  A helper that reads well as an own test but is built on the chain-walking lookups (`get_getter`, `get`)
+    answers yes for an accessor that is merely inherited."""
+    rep.rule(rid, "the natives that answer questions about OWN properties call no method of the object model that follows the prototype link (directly or through other methods), and do not read the link themselves", floor=3)
+    walkers = chain_walkers(ctx)
+    n = 0
+    for i, (f, jsname, how) in sorted(ctx.cg.natives.items(), key=lambda kv: kv[1][0].qual):
+        if jsname not in _OWN_NATIVES or isinstance(f.node, ast.Lambda):
+            continue
+        n += 1
+        key = f"{f.qual}:{jsname}:own-only"
+        bad = None
+        # keys that were taken from the receiver's own key list: reading their VALUE through a walking getter finds
+        # the receiver's own entry first
+        own_keys = set()
+        for l in f.own_nodes():
+            gens = [(l.target, l.iter)] if isinstance(l, ast.For) else ([(g.target, g.iter) for g in l.generators] if isinstance(l, (ast.ListComp, ast.GeneratorExp, ast.SetComp, ast.DictComp)) else [])
+            for tg, it in gens:
+                if isinstance(tg, ast.Name) and isinstance(it, ast.Call) and isinstance(it.func, ast.Attribute) and it.func.attr in ("keys", "own_keys", "_own_keys") or isinstance(tg, ast.Name) and isinstance(it, ast.Attribute) and it.attr in ("_properties", "_getters", "_setters"):
+                    own_keys.add(tg.id)
+        for c in f.own_nodes():
+            if isinstance(c, ast.Call) and isinstance(c.func, ast.Attribute) and c.func.attr in walkers and isinstance(c.func.value, ast.Name) and c.func.value.id != "self":
+                if c.args and isinstance(c.args[0], ast.Name) and c.args[0].id in own_keys:
+                    continue
+                # a QUESTION: the answer decides something (a condition, a returned verdict); a value read that is
+                # stored or handed on is not one
+                q, child, question = getattr(c, "_parent", None), c, False
+                while q is not None and not isinstance(q, ast.stmt):
+                    if isinstance(q, (ast.BoolOp, ast.Compare)) or (isinstance(q, ast.UnaryOp) and isinstance(q.op, ast.Not)) or (isinstance(q, ast.IfExp) and q.test is child):
+                        question = True
+                    if isinstance(q, ast.Call):
+                        break
+                    child, q = q, getattr(q, "_parent", None)
+                if isinstance(q, (ast.If, ast.While)) and q.test is child:
+                    question = True
+                if isinstance(q, ast.Return) and q.value is c:
+                    question = True
+                if isinstance(q, ast.Assign) and q.value is c and isinstance(q.targets[0], ast.Name):
+                    v_ = q.targets[0].id
+                    question = any(isinstance(t_, (ast.If, ast.While)) and any(isinstance(x, ast.Name) and x.id == v_ for x in ast.walk(t_.test)) for t_ in f.own_nodes())
+                if not question:
+                    continue
+                bad = (c.lineno, f"calls `{short(c, 40)}`: {walkers[c.func.attr]}")
+                break
+            if isinstance(c, ast.Attribute) and c.attr == "_prototype" and isinstance(c.ctx, ast.Load):
+                bad = (c.lineno, f"reads `{norm(c)}`")
+                break
+        if bad is None:
+            rep.ok(rid, key)
+        else:
+            rep.bad(rid, key, f"{f.qual} (script name {jsname}) {bad[1]}: an accessor or value that the receiver merely inherits is reported as its own (`Object.create({{get v(){{}}}}).hasOwnProperty('v')` is true)", f"{f.module.rel}:{bad[0]}")
+    if n < 3:
+        raise AnalysisError(f"{rid}: fewer than three own-property natives found ({n})")
+
+
+# ---- one spelling of "nothing" per function ------------------------------------------------------------------
+
+
+def rule_one_spelling_of_nothing(ctx, rep, rid: str, modules=("vm", "context", "values")) -> None:
+    """A helper that answers 'unknown' as None on one exit and as a tuple of Nones on another has two spellings of the
+    same answer; the caller tests one of them (`if location is not None`) and unpacks the other, and the host's None
+    then travels on as if it were data - into a property of a script object, for instance (e.lineNumber holding
+    Python's None: typeof 'undefined', yet !== undefined)."""
+    rep.rule(rid, "no function of the runtime returns both a bare None and a tuple made of Nones: 'nothing' has one spelling per function, so that the caller's single test covers every exit", floor=1)
+    n = 0
+    for f in ctx.tree.funcs:
+        if isinstance(f.node, ast.Lambda) or f.module.name not in modules:
+            continue
+        rets = [r for r in f.own_nodes() if isinstance(r, ast.Return)]
+        bare = [r for r in rets if r.value is None or (isinstance(r.value, ast.Constant) and r.value.value is None)]
+        tup = [r for r in rets if isinstance(r.value, ast.Tuple) and r.value.elts and all(isinstance(e, ast.Constant) and e.value is None for e in r.value.elts)]
+        if not tup:
+            continue
+        n += 1
+        key = f"{f.qual}:nothing"
+        if bare:
+            rep.bad(rid, key, f"{f.qual} returns a bare None at line {bare[0].lineno} and `{short(tup[0].value, 30)}` at line {tup[0].lineno}: a caller that tests the result with `is not None` lets the tuple of Nones through and unpacks host Nones into what it builds (the lineNumber / columnNumber of an error object a script can catch)", f"{f.module.rel}:{tup[0].lineno}")
+        else:
+            rep.ok(rid, key)
+    if n == 0:
+        rep.ok(rid, "no-tuple-of-nones", {"note": "no function answers with a tuple of Nones"})
